@@ -540,6 +540,21 @@ def run_check(pid, tier, seed):
         else:
             broken.append("correspondence:%s model not extracted (coq build failed)" % pid)
 
+    # ---- B'. optional property-specific stage (props/Cnn.py: def extra(ctx) -> {"lines": [...], "stats": {...}})
+    xstats = {}
+    if callable(prop.get("extra")):
+        try:
+            xr = prop["extra"]({"tier": tier, "seed": seed, "outdir": outdir, "repo": REPO, "verif": VERIF,
+                                "vlib": sys.modules[__name__], "proof_ok": ps["ok"]}) or {}
+        except Exception as ex:  # a crashing stage is a broken tie, never a silent pass
+            xr = {"lines": ["HARNESS-ERROR extra stage raised %r" % (ex,)]}
+        s, c, e = classify(xr.get("lines", []))
+        spec_lines += s
+        corr_lines += c
+        err_lines += e
+        xstats = xr.get("stats", {})
+        evaluations += int(xstats.get("evaluations", 0))
+
     # ---- C. verdict
     unlisted_spec = []
     seen_sigs = set()
@@ -630,7 +645,7 @@ def run_check(pid, tier, seed):
             "disagreements_checked": len(corr_lines),
             "spec_violations_seen": len(spec_lines),
             "known_findings_seen": [s for s, _ in known_seen],
-            "input_distribution": hstats, "model_stats": mstats,
+            "input_distribution": hstats, "model_stats": mstats, "extra_stage": xstats,
             "proof_problems": ps.get("problems", []),
             "broken": broken, "coqchk": coqchk,
             "explanation": prop.get("explanation", ""),
